@@ -24,7 +24,10 @@ refusal; only another rule's: known finding C17-overflow-unrelated-rule; none: v
 C17_cost_query_panics_only_if_own_or_foreign); (2) min_sentences on a thread with an explicit 2 MiB stack, one process per run,
 chains of distinct rules and shallow controls — stack overflow inside min_sentences at a recursion depth >= 1000: known finding
 C17-min_sentences-recursion-depth, any other crash or a wrong answer: violation (C17_min_sentences_depth_le_rules,
-C17_min_sentences_depth_unbounded_refuted); (3) min_sentences = its extracted mirror, sentence list in order.
+C17_min_sentences_depth_unbounded_refuted); (3) min_sentences = its extracted mirror, sentence list in order; (4) min_sentences of
+every rule of the clique of unit productions `R0: R1 | 'x'; Ri: every other rule` (m = 4..8), whole lists: an element other than
+['x']: violation; the number of copies grows factorially and the list is the mirror's: known finding
+C17-min_sentences-factorial-paths (C17_min_sentences_clique_copies); one copy everywhere: quiet.
 """
 import itertools
 import os
@@ -928,16 +931,21 @@ def run(ctx):
     qbad, qknown, qstats = CQ.eval_overflow(ctx, rep, qexe, mexe, Model, names)
     dbad, dknown, dstats = CQ.finish_depth(ctx, rep, depth_pending)
     mbad, n_msb = CQ.eval_msb_mirror(ctx, rep, mexe, lines, [p2[i][0] if i in p2 else "" for i in range(len(lines))])
-    failed |= qbad | dbad | mbad
+    cbad, cknown, cstats = CQ.eval_clique(ctx, rep, qexe, mexe)
+    failed |= qbad | dbad | mbad | cbad
     aspects += ["overflow-queries", "overflow-panic", "query-panic", "query-values", "min_sentences-depth", "depth-values",
-                "depth-crash", "msb-mirror"]
+                "depth-crash", "msb-mirror", "min_sentences-paths", "clique-values", "clique-mirror", "clique-duplicates"]
     if qknown:
         CQ.patch_note(ctx, CQ.K_OVF, "%s (%d queries, first: %s)" % (CQ.K_OVF, len(qknown), qknown[0]))
     if dknown:
         CQ.patch_note(ctx, CQ.K_DEPTH, "%s (%d runs, first: %s)" % (CQ.K_DEPTH, len(dknown), dknown[0]))
+    if cknown:
+        CQ.patch_note(ctx, CQ.K_PATHS, "%s (%s)" % (CQ.K_PATHS, cknown[0]))
     ctx.coverage["queries_one_by_one"] = dict(qstats, **dstats)
+    ctx.coverage["queries_one_by_one"].update(cstats)
     ctx.coverage["queries_one_by_one"]["rules_whose_min_sentences_equals_the_mirror_in_order"] = n_msb
-    ctx.coverage["queries_one_by_one"]["known_class_instances"] = {"overflow_of_another_rule": qknown[:6], "stack_depth": dknown[:6]}
+    ctx.coverage["queries_one_by_one"]["known_class_instances"] = {"overflow_of_another_rule": qknown[:6], "stack_depth": dknown[:6],
+                                                                     "factorial_paths": cknown}
     for a in aspects:
         ctx.oblige(a not in failed, a)
     ctx.coverage["rule"] = ("grammar families: random (incl. unreachable / unproductive / unit-cyclic rules), reduced random, nullable-heavy, "
@@ -956,6 +964,9 @@ def run(ctx):
                             "another rule's: known class; none: violation); min_sentences on a thread with an explicit 2 MiB stack in its "
                             "own process for chains of 501 .. 12001 (thorough: .. 20001) rules in three shapes and wide / tree controls; "
                             "min_sentences = its extracted mirror, sentence list in order, for every rule of every enumerated case; "
+                            "min_sentences of every rule of the unit-production clique R0: R1 | 'x'; Ri: every other rule, m = 4..8 (thorough "
+                            "2..9), whole list: every element must be ['x'], the number of copies is recorded (known class: factorial "
+                            "growth with the list equal to the mirror's for m <= 7; one copy everywhere: quiet); "
                             "non-trivial = some rule is nullable or recursive; distinct by case line")
     ctx.coverage["query_orders"] = {str(k): ctx.hist.get("query_order_%d" % k, 0) for k in sorted(ORDERS)}
     ctx.coverage["exhaustive"] = False
@@ -976,6 +987,9 @@ def run(ctx):
         "the native stack is observed with the thread stack size Rust gives spawned threads (2 MiB) in the harness's release profile; "
         "the known class C17-min_sentences-recursion-depth is a stack overflow INSIDE min_sentences whose recursion (frames counted by "
         "the transcription of the mirror) is at least 1000 calls deep",
+        "the known class C17-min_sentences-factorial-paths is decided without timing: the whole answer list on the clique of unit productions "
+        "consists of copies of the one minimal sentence, their number c(m) satisfies c(8) >= 5 c(7) >= 25 c(6), and the list equals the "
+        "extracted mirror's list (C17_min_sentences_clique_copies) for m <= 7; duplicates as such are not a violation of the property",
         "the reference costs are certified per case by verified checkers (C17_certified_costs_exact); a case on which the search finds no "
         "accepted certificate is counted as 'reference_costs_not_certified' and fails an obligation, it is never turned into a verdict",
     ]
